@@ -1,6 +1,7 @@
 (* Extract/E_C18.v — wire entry for C18 (glue, not trusted for theorems).
    case:
-     [1, variant, frame, rf, cf, chunk]   to_csv      -> [model, spec]
+     [1, variant, frame, rf, cf, chunk, ascii]   to_csv      -> [model, spec]
+          (ascii = 1: the interpreter's locale encoding is ASCII; only the unrepaired code cares, F-C18h)
           model = [file bytes, csv_parse file, predicted re-import]  (or an error)
           spec  = [spec_table, spec_columns]
      [2, variant, frame, rfp, cf]         to_pandas   -> [model, spec]
@@ -102,13 +103,20 @@ Definition reimport_pred (v:variant) (fk:list (field * Z)) (fr:frame) (rf:rowfil
 
 Definition entry_C18 (v:val) : val :=
   match v with
-  | VL [VZ 1; VZ var; fr; rf; cf; VZ chunk] =>
+  | VL [VZ 1; VZ var; fr; rf; cf; VZ chunk; VZ ascii] =>
     match as_frame fr, as_rf rf, as_cf cf with
     | Some fk, Some rf, Some cf =>
       let fr := map fst fk in
       let vr := as_variant var in
       let model :=
-        of_res (fun file => VL [vlist file; vlist3 (csv_parse file); reimport_pred vr fk fr rf cf file])
+        of_res (fun file =>
+                  match vr with
+                  | V_orig =>
+                    (* open(filepath, 'w') encodes with the locale encoding: non-ASCII text cannot be written *)
+                    if negb (ascii =? 0) && existsb (fun b => 128 <=? b) file then VErr K_RAISE E_ValueError
+                    else VL [vlist file; vlist3 (csv_parse file); reimport_pred vr fk fr rf cf file]
+                  | V_fix => VL [vlist file; vlist3 (csv_parse file); reimport_pred vr fk fr rf cf file]
+                  end)
                (to_csv (to_csv_fuel fr chunk) vr fr rf cf chunk) in
       let spec :=
         if (0 <? chunk) && cf_valid fr cf
